@@ -1,6 +1,7 @@
 import CogentModel.Model.AnnotDb
 import CogentModel.Spec.AnnotDb
 import CogentModel.Proofs.AnnotDb
+import CogentModel.Proofs.GffBlocksD
 /-! # C17 — annotation databases return exactly the matching records
 
 `matchPartial`, `matchWithin`, `matchStartOnly`, `matchStopOnly` are **generated** from the SQL
@@ -149,5 +150,47 @@ theorem gff_load_one_block (rows : List GffRow) :
 example :
     (loadGffBlocks [[⟨some "c1", "s1", "CDS", "-", "ID=c1", 3, 4⟩, ⟨some "c1", "s1", "CDS", "-", "ID=c1", 8, 10⟩]]).map
       (fun r => (r.name, r.spans, r.start, r.stop)) = [(some "c1", [(2, 4), (7, 10)], 2, 10)] := by decide
+
+/-- **gff_load_block_independent.**  `_db_from_gff` (as it is since 348f9741c) stores the same
+records — same order, hence the same multiset — whatever `lines_per_block` is: any way of cutting
+the rows into blocks gives what reading them in one block gives.  This covers IDs whose rows fall
+into different blocks (`update_record_spans` + popping the already-seen name) and the numbering
+of rows without an ID across blocks (`num_fake_ids` threaded through `merged_gff_records`).
+Hypothesis: in the merged file no feature lists the same span twice (see the counterexample below). -/
+theorem gff_load_block_independent (blocks : List (List GffRow))
+    (hnd : ∀ x ∈ (mergeRows blocks.flatten 0 []).1, x.spans.Nodup) :
+    loadGffBlocks blocks = loadGffBlocks [blocks.flatten] :=
+  loadGffBlocks_independent blocks hnd
+
+/-- … in particular the same multiset of records. -/
+theorem gff_load_block_independent_perm (blocks : List (List GffRow))
+    (hnd : ∀ x ∈ (mergeRows blocks.flatten 0 []).1, x.spans.Nodup) :
+    (loadGffBlocks blocks).Perm (loadGffBlocks [blocks.flatten]) := by
+  rw [gff_load_block_independent blocks hnd]
+
+-- three blocks: an ID split over blocks 1 and 3, rows without ID in every block
+example :
+    let c1a : GffRow := ⟨some "c1", "s1", "CDS", "-", "ID=c1", 3, 4⟩
+    let c1b : GffRow := ⟨some "c1", "s1", "CDS", "-", "ID=c1", 8, 10⟩
+    let e1 : GffRow := ⟨none, "s1", "exon", "-", "Parent=c1", 3, 4⟩
+    let e2 : GffRow := ⟨none, "s1", "exon", "-", "Parent=c1", 8, 9⟩
+    let e3 : GffRow := ⟨none, "s2", "exon", "+", "", 1, 2⟩
+    let blocks := [[c1a, e1], [e2], [e3, c1b]]
+    (∀ x ∈ (mergeRows blocks.flatten 0 []).1, x.spans.Nodup) ∧
+    (loadGffBlocks blocks).map (fun r => (r.name, r.spans, r.start, r.stop)) =
+      [(some "c1", [(2, 4), (7, 10)], 2, 10), (some "unknown-0", [(2, 4)], 2, 4),
+       (some "unknown-1", [(7, 9)], 7, 9), (some "unknown-2", [(0, 2)], 0, 2)] := by
+  decide
+
+/- The hypothesis is needed: when the *same row* of one ID occurs twice, reading both copies in one
+   block keeps the span twice, while `_merge_spans` (`numpy.unique`, and the `old == new` shortcut)
+   drops the duplicate when the copies are in different blocks.  The correspondence check replays
+   this input on the real loader. -/
+theorem gff_blocks_duplicate_row_counter :
+    (loadGffBlocks [[⟨some "c1", "s1", "CDS", "-", "ID=c1", 3, 5⟩], [⟨some "c1", "s1", "CDS", "-", "ID=c1", 3, 5⟩]]).map (·.spans)
+      = [[(2, 5)]] ∧
+    (loadGffBlocks [[⟨some "c1", "s1", "CDS", "-", "ID=c1", 3, 5⟩, ⟨some "c1", "s1", "CDS", "-", "ID=c1", 3, 5⟩]]).map (·.spans)
+      = [[(2, 5), (2, 5)]] := by
+  decide
 
 end CogentModel.C17
